@@ -191,6 +191,27 @@ fn vm_cases(s: &mut Session, cr: &mut Crafter, rng: &mut Rng) {
         }
     }
     s.mark_nontrivial();
+    // a header that arrives in two reads: the token is still good when its first bytes arrive and too old when the
+    // rest does — it is the moment of acceptance that counts
+    s.begin_case("vmess-server:window-slow-header");
+    {
+        let sv = s.fresh("s");
+        s.run(&format!("vm.server {} users=u:{}", sv, uuid));
+        let (iv, key16) = (rng.bytes(16), rng.bytes(16));
+        let instr = spec(s, cr, &format!("craft.vm.instr iv={} key={} v=7 opt=17 padsec=3 cmd=1 pta={} padding=-", hex(&iv), hex(&key16), hex(&vm_target)));
+        let t0 = now_secs();
+        let head = spec(s, cr, &format!("craft.vm.req uuid={} time={} rand={} nonce={} header={}", uuid, t0 as i64 - 118, hex(&rng.bytes(4)), hex(&rng.bytes(8)), instr));
+        let Some(head) = unhex(&head) else { return };
+        let d1 = feed_all(s, &sv, &[head[..20].to_vec()], false);
+        while now_secs() < t0 + 4 {
+            std::thread::sleep(std::time::Duration::from_millis(100));
+        }
+        let d2 = feed_all(s, &sv, &[head[20..].to_vec()], false);
+        if d1.connect.is_some() || d2.connect.is_some() {
+            s.oracle_fail("vmess-server:window", "a request whose token was 118 s old when its first bytes arrived and more than 120 s old when its header was complete was honoured");
+        }
+    }
+    s.mark_nontrivial();
     s.begin_case("vmess-client:binding");
     for variant in 0..8 {
         let c = s.fresh("c");
